@@ -174,7 +174,7 @@ INV_DATA = r'''
                     invariant
                         self.same_wiring(old(self)), self.prev == prev1, old(self).inv(),
                         true,
-                        message is Item || message is Timestamped, g_idx == @{index},
+                        message is Item || message is Timestamped, g_idx == §index§,
                         forall|i: int| 0 <= i < old(self).senders@.len() ==> (#[trigger] self.senders@[i]).1.all() ==
                             (if old(self).is_target_upto(i, g_idx, __g as int) { old(self).senders@[i].1.all().push(message) } else { old(self).senders@[i].1.all() }),
 '''
@@ -282,7 +282,7 @@ def build(x):
     nx.insert_before('let sender = &mut self.senders[sender_idx];', HINT_BCAST_STEP)
     nx.add_loop_spec(3, INV_DATA)
     nx.bind('index', r'let (?:mut )?(\w+)(?:\s*:\s*usize)? = self\.next_strategy\.index\(')
-    nx.insert_after(re.compile(r'let (?:mut )?\w+(?:\s*:\s*usize)? = self\.next_strategy\.index\(\w+\);'), '\n                proof { g_idx = @{index}; }')
+    nx.insert_after(re.compile(r'let (?:mut )?\w+(?:\s*:\s*usize)? = self\.next_strategy\.index\(\w+\);'), '\n                proof { g_idx = §index§; }')
     nx.insert_after('let block = &self.block_senders[__g];', '\n                    ' + HINT_DATA_PRE, nth=2)
     nx.insert_before('self.senders[sender_idx].1.enqueue(message.clone());', HINT_DATA_STEP)
     nx.insert_before('// Flushing messages', GHOST_MID)
